@@ -66,9 +66,11 @@ impl FileName {
 
     /// On top of separating the path into the module name and the file components,
     /// this will also strip any ".capy" at the end of a component,
-    /// and will replace any '.' with a '-'
+    /// and will replace any '.' with a "\." (and any '\' with a "\\").
     ///
-    /// TODO: maybe replace '.' with '\.'
+    /// The components are joined with '.' to display them and make up the symbol names of the
+    /// file's globals, so two different files must never get the same components. Replacing
+    /// '.' with '-' made "a.b.capy" and "a-b.capy" the same file.
     pub fn get_components<'a>(
         &'a self,
         mod_dir: &'a Path,
@@ -107,10 +109,10 @@ impl FileName {
             .filter(|c| !matches!(c, Component::Prefix(_) | Component::RootDir))
             .map(|c| c.as_os_str().to_string_lossy())
             .map(|c| {
-                if c.contains('.') {
+                if c.contains('.') || c.contains('\\') {
                     let res = c.strip_suffix(".capy").unwrap_or(&c);
 
-                    res.replace('.', "-").into()
+                    res.replace('\\', "\\\\").replace('.', "\\.").into()
                 } else {
                     c
                 }
